@@ -487,7 +487,10 @@ func (x *Exec) eval(sx *SX, env *Env) Val {
 		v.T = t
 		return v
 	case "zero":
-		t := x.resolveType(env, args[0].String())
+		_, t := x.smtSortName(env, args[0].String())
+		if t == nil {
+			x.specFail("zero of unknown type %s", args[0].String())
+		}
 		return Val{S: x.so.zero(t), T: t}
 	case "local":
 		if env.fr != nil {
@@ -531,7 +534,7 @@ func (x *Exec) eval(sx *SX, env *Env) Val {
 			return d.Res
 		}
 	case "call":
-		key := canonKey(env.pkg, args[0].Atom)
+		key := normKey(canonKey(env.pkg, strings.Trim(args[0].Atom, "|")))
 		fn := x.L.Funcs[key]
 		if fn == nil {
 			x.specFail("call: unknown function %s", key)
@@ -549,6 +552,61 @@ func (x *Exec) eval(sx *SX, env *Env) Val {
 			return Val{S: sym, T: rt}
 		}
 		return Val{S: "(" + strings.Join(parts, " ") + ")", T: rt}
+	case "callarg":
+		// (callarg "key" k n): n-th argument (receiver first) of the k-th call of the matching contracted function
+		if env.st == nil {
+			x.specFail("callarg outside a path")
+		}
+		k, _ := strconv.Unquote(args[0].Atom)
+		var keys []string
+		for ck := range env.st.callArgs {
+			if strings.Contains(ck, k) {
+				keys = append(keys, ck)
+			}
+		}
+		if len(keys) != 1 {
+			x.specFail("callarg %q matches %d called functions on this path", k, len(keys))
+		}
+		ci, _ := strconv.Atoi(args[1].Atom)
+		ai, _ := strconv.Atoi(args[2].Atom)
+		cs := env.st.callArgs[keys[0]]
+		if ci >= len(cs) || ai >= len(cs[ci]) {
+			x.specFail("callarg %q %d %d out of range", k, ci, ai)
+		}
+		return cs[ci][ai]
+	case "mcall":
+		// (mcall Method recv args...): the function symbol modelling an interface method declared 'method I M fn'
+		recv := ev(1)
+		if recv.T == nil || !types.IsInterface(recv.T) {
+			x.specFail("mcall on a non-interface value")
+		}
+		mname := args[0].Atom
+		it := types.Unalias(recv.T)
+		obj, _, _ := types.LookupFieldOrMethod(it, false, nil, mname)
+		fo, ok := obj.(*types.Func)
+		if !ok {
+			// unexported or package-qualified method: search the method set
+			ms := types.NewMethodSet(it)
+			for i := 0; i < ms.Len(); i++ {
+				if ms.At(i).Obj().Name() == mname {
+					fo, ok = ms.At(i).Obj().(*types.Func)
+				}
+			}
+		}
+		if !ok {
+			x.specFail("no method %s on %s", mname, typeStr(it))
+		}
+		sig := fo.Type().(*types.Signature)
+		sym := q(fmt.Sprintf("m:%s.%s#0", typeStr(recv.T), mname))
+		ps := []string{"Iface"}
+		as := []string{recv.S}
+		for j := 2; j < len(args); j++ {
+			ps = append(ps, x.so.sortOf(sig.Params().At(j-2).Type()))
+			as = append(as, ev(j).S)
+		}
+		rt := sig.Results().At(0).Type()
+		x.so.decl(sym, fmt.Sprintf("(declare-fun %s (%s) %s)", sym, strings.Join(ps, " "), x.so.sortOf(rt)))
+		return Val{S: "(" + sym + " " + strings.Join(as, " ") + ")", T: rt}
 	case "callres":
 		if env.st == nil {
 			x.specFail("callres outside a path")
@@ -611,6 +669,33 @@ func (x *Exec) eval(sx *SX, env *Env) Val {
 			ne.vars[p.Name] = v
 		}
 		return x.eval(m.Body, ne)
+	}
+	if head == "and" {
+		// a conjunct that cannot be evaluated on this path (e.g. it mentions a call that did not happen) is false,
+		// which only makes the enclosing obligation harder
+		parts := []string{"and"}
+		for i := range args {
+			part := func() (out string) {
+				defer func() {
+					if r := recover(); r != nil {
+						if _, ok := r.(specError); ok {
+							out = "false"
+							return
+						}
+						panic(r)
+					}
+				}()
+				return ev(i).S
+			}()
+			parts = append(parts, part)
+			if part == "false" {
+				break
+			}
+		}
+		if len(parts) == 1 {
+			return Val{S: "true", T: types.Typ[types.Bool]}
+		}
+		return Val{S: "(" + strings.Join(parts, " ") + ")", T: types.Typ[types.Bool]}
 	}
 	// SMT passthrough
 	parts := []string{sx.List[0].String()}
